@@ -170,6 +170,10 @@ def date_sx(d):
 def gen_date(rng):
     if rng.random() < 0.05:
         return rng.choice([(1, 1, 1), (9999, 12, 31), (2024, 2, 29), (999, 3, 4)])
+    if rng.random() < 0.12:
+        # around the turn of the year: the ISO week-year (chrono %G) differs from the calendar year (%Y) on some of these days
+        y = rng.choice([2018, 2019, 2020, 2021, 2024, 2025, 2026, 2027])
+        return rng.choice([(y, 12, 29), (y, 12, 30), (y, 12, 31), (y, 1, 1), (y, 1, 2), (y, 1, 3)])
     return (rng.randint(1990, 2035), rng.randint(1, 12), rng.randint(1, 28))
 
 
@@ -940,6 +944,14 @@ def vis_fixed_cases():
         "10.08.20 11.08.20 Shop 5.00\u00a0\n\u00a0Cat\u3000\n", "10.08.20 11.08.20 Shop 5.00\n\u2028\n", "10.08.20 11.08.20 Sh\u2028op 5.00\nCat\n", "\ufeff10.08.20 11.08.20 Shop 5.00\n",
         "10.08.20 11.08.20 Shop 5.00\n٣ cat\n", "10.08.20 11.08.20 Shop 0.00 -\nCat\n", "10.08.20 11.08.20 Shop EUR 0.00 0 -\nCat\nExchange rate 0 of 11.08.20 CHF 0\nCredit of processing fee 0% CHF 0.000\n",
         "10.08.20 10.08.20 Shop 5.00\nTMigros\n", "01.01.70 31.12.69 Shop 5.00\n", "Total 5.00\n", "10.08.20 11.08.20 Shop 5.00\nCat\nTotal 5.00\n",
+        # a line that starts with a digit but is no well-formed record, after a record WITHOUT category line and before a
+        # well-formed record: it is neither a category nor a record (the import must fail; it may not be swallowed)
+        "10.08.20 11.08.20 Shop 5.00\n11.08.20 12.08.20 Refund 34.50-\n12.08.20 13.08.20 Bar 7.00\nCat\n",
+        "10.08.20 11.08.20 Shop 5.00\n11.08.20 12.08.20 Big 1,250.00\n12.08.20 13.08.20 Bar 7.00\n",
+        "10.08.20 11.08.20 Shop 5.00\n9 lives\n12.08.20 13.08.20 Bar 7.00\nCat\n",
+        "10.08.20 11.08.20 Shop 5.00\n11.08.2012.08.20 Glued 3.00\n12.08.20 13.08.20 Bar 7.00\nCat\n",
+        # dates around the turn of the year (ISO week-year differs from the calendar year there)
+        "30.12.24 31.12.24 Shop 5.00\nCat\n01.01.21 02.01.21 Shop 6.00\nCat\n29.12.25 03.01.27 Shop 7.00\nCat\n",
     ]
     cases = [{"primary": "CHF", "doc": doc, "text": t.encode("utf-8"), "expected": [], "flags": [], "damage": "fixed"} for t in texts]
     no_op = dict(doc)
